@@ -157,6 +157,17 @@ def gen_cases(ctx):
              "build": "coords", "tol": 1e-9, "exact": ang in (0.0, 90.0, 180.0) and dim == 2}
         c.update(law[1])
         cases.append(c)
+    # ---- orthotropic 3-D bodies with ONE material axis exactly a global axis and the other one tilted about it (and the
+    #      permutation), rotated about that global axis by a generic and by an exact angle
+    import math as _m2
+    for which, ang, ex in ((0, 25.0, False), (1, 90.0, True)) if quick else ((0, 25.0, False), (1, 90.0, True), (0, 140.0, False), (1, 35.0, False)):
+        th = _m2.radians(35.0) if which == 0 else _m2.pi / 2
+        tilted = [0.0, _m2.cos(th), _m2.sin(th)] if th != _m2.pi / 2 else [0.0, 0.0, 1.0]
+        pair = [[1.0, 0.0, 0.0], tilted]
+        c = {"kind": "elastic", "dim": 3, "elemType": "TETRA4", "law": "ortho", "F": [0.3, -1.0, 0.2], "build": "coords",
+             "axes": pair if which == 0 else pair[::-1], "angle": ang, "axis": [1, 0, 0], "exact": ex, "tol": 1e-9}
+        c.update(laws[2][1])
+        cases.append(c)
     # ---- scaled twins (change of units): lengths x {1e-9, 1e-6, 1e3}, moduli x 2^(+-40); the pair must still agree
     for sL, sE in ((1e-9, 2.0 ** 40), (1e-6, 2.0 ** -40), (1e3, 1.0)) if not quick else ((1e-9, 2.0 ** 40), (1e3, 2.0 ** -40)):
         c = {"kind": "elastic", "dim": 2, "elemType": rng.choice(["TRI3", "QUAD4"]), "law": "ti", "F": F3(), "ps": rng.random() < 0.5,
@@ -247,6 +258,13 @@ def gen_cases(ctx):
         if not timo or not quick:
             cases.append({"kind": "beam", "dim": 2, "timo": timo, "elemType": "SEG3", "points": [[0, 0, 0], [100.0, 0, 0], [100.0, 80.0, 0]],
                           "F": [300.0, -800.0, 0.0], "M": [0, 0, 4.0e6], "angle": 47.0, "scaleL": 1e3})
+        # the SAME objects moved in place (user's Line, simulation mesh, beam.yAxis, loads) and re-solved
+        for dim_ in (2, 3):
+            if quick and ((dim_ == 2) == timo):
+                continue
+            cases.append({"kind": "beam_inplace", "dim": dim_, "timo": timo, "elemType": "SEG3" if timo else "SEG2",
+                          "F": [100.0, -300.0, 0.0 if dim_ == 2 else 200.0], "angle": round(rng.uniform(20, 340), 1),
+                          "axis": [0, 0, 1] if dim_ == 2 else [0.3, -0.5, 1.0], "translate": [5.0, -3.0, 0.0 if dim_ == 2 else 7.0]})
         # rotated L-frame with a tip moment (proper rotation)
         cases.append({"kind": "beam", "dim": 2, "timo": timo, "elemType": "SEG3", "points": shapes2[1], "F": [300.0, -800.0, 0.0], "M": [0, 0, 5000.0],
                       "angle": round(rng.uniform(5, 355), 1)})
@@ -279,7 +297,9 @@ def gen_cases(ctx):
 
 def classify(c, r, beam):
     moved = ("rot" if c.get("angle") else "") + ("+refl" if c.get("reflect") else "") + ("+transl" if c.get("translate") else "")
-    if c["kind"] == "beam_roll":
+    if c["kind"] == "beam_inplace":
+        cls = "beam_inplace:%s:%dD" % ("Timoshenko" if c.get("timo") else "EB", c["dim"])
+    elif c["kind"] == "beam_roll":
         cls = "beam_roll:%s" % ("Timoshenko" if c.get("timo") else "EB")
     elif c["kind"] == "beam":
         cls = "beam:%s:%dD" % ("Timoshenko" if c.get("timo") else "EB", c["dim"])
@@ -298,6 +318,8 @@ def classify(c, r, beam):
         key = "pressure-reflected-mesh:Get_normals"
     elif c["kind"] == "beam_roll":
         key = "beam-section-roll-on-existing-simulation:%s" % ("Timoshenko" if c.get("timo") else "EB")
+    elif c["kind"] == "beam_inplace":
+        key = "beam-objects-moved-in-place:%s:%dD" % ("Timoshenko" if c.get("timo") else "EB", c["dim"])
     elif c["kind"] == "beam" and c.get("scaleL"):
         key = "beam-tagging-absolute-tolerance:Line.Contains"
     elif c["kind"] == "beam" and c.get("lineload") and not c.get("timo"):
